@@ -34,13 +34,11 @@ var Scenarios = []Scenario{
 			"w multi", "v sync-wait",
 			"v compact 1",
 			"w big", "v sync-wait",
-			"w update", "v sync-wait",
 			"v compact 1",
 			"v compact 2",
 			"v snapshot",
 			"v checkpoint TRUNCATE",
-			"w delete", "v sync-wait",
-			"v compact 1",
+			"w update", "v sync-wait",
 			"v close",
 			"stop",
 		),
